@@ -16,7 +16,8 @@ Section M.
 Variable cfg : list (bool * tmo).
 Let reent := cfg_reent cfg.
 Let dflt := cfg_dflt cfg.
-Notation Rq := (Rq reent dflt).
+Let z : nat -> nat := fun _ => 0.
+Notation Rq := (Rq reent dflt z z).
 Variable fuel : nat.
 
 (* Case_C12's probe / probes / run_seq with the fuel as a parameter (= them at FUEL, see the end) *)
@@ -58,7 +59,7 @@ Proof.
   intros Q [Hp Hfu] res. pose proof Q as [Qt Qd Qf Qc [Qk1 Qk2] Qfd Qho Qa].
   destruct (Qt t) as [Hpc Hpr]. destruct (Qc o) as (Co1 & Co2 & Co3).
   assert (Hal : dead s (t_proc (thr s t)) = false) by apply Qd.
-  assert (Hpro : o_proc (objs s o) = t_proc (thr s t)) by congruence.
+  assert (Hpro : o_proc (objs s o) = t_proc (thr s t)) by (rewrite Co1, Hpr; reflexivity).
   assert (Enorm : normalise (objs s o) blk tm = norm' (dflt o) blk tm) by (rewrite normalise_norm', Co3; reflexivity).
   pose proof (do_acquire_outcome s t o m blk tm poll skip fuel Hpc Hal Hpro Qk1 Qk2) as Out.
   pose proof (do_acquire_terminates s t o m blk tm poll skip fuel Hpc Hal Hpro Qk1 Qk2 Qf) as Term.
@@ -120,12 +121,12 @@ Proof.
   { cbn. split; [intros T E; unfold norm', normalise in E; cbn in E; discriminate|].
     unfold norm', normalise, acq_fuel. cbn. exact Hf16. }
   destruct Hcf as [Hp Hf].
-  destruct (acq_refines reent dflt s st t o MPlain false TNone 0%N 0 fuel Q Hp Hf) as [Er Eq].
+  destruct (acq_refines reent dflt z z s st t o MPlain false TNone 0%N 0 fuel Q eq_refl Hp Hf) as [Er Eq].
   destruct (do_call fuel s t (CAcq o MPlain false TNone 0%N 0)) as [s1 r] eqn:E1. cbn [fst snd] in *.
   destruct (snd (spec_acquire st t o (reent o))) eqn:Eb.
   - subst r. assert (Q1 : Rq s1 (fst (spec_acquire st t o (reent o)))) by (apply Eq; discriminate).
     destruct (spec_acq_rel st t o (reent o) (Rq_depth_pos _ _ Q) Eb) as (A & B & D).
-    destruct (rel_refines reent dflt s1 _ t o false fuel Q1 A) as [_ Q2]; [lia|].
+    destruct (rel_refines reent dflt z z s1 _ t o false fuel Q1 A) as [_ Q2]; [lia|].
     rewrite B in Q2. cbn. auto.
   - assert (r <> RTrue /\ r <> RWouldBlock).
     { subst r. unfold spec_no. cbn. split; discriminate. }
@@ -173,7 +174,7 @@ Proof.
   intros Q Hfu. destruct (probes_ok (all_pairs nT (length cfg)) s1 st' Q Hfu) as [A B].
   destruct (probes_f s1 (all_pairs nT (length cfg))) as [s2 ps]. cbn [fst snd] in *.
   split; auto. split; [rewrite (locked_all_spec _ _ _ Q); apply bools_eqb_refl|].
-  split; [rewrite (Rq_nfds reent dflt _ _ Q); apply Nat.eqb_refl|].
+  split; [rewrite (Rq_nfds reent dflt z z _ _ Q); apply Nat.eqb_refl|].
   intros pf. subst ps. fold reent. destruct (Nat.eqb pf 0); [apply bools_eqb_refl|apply implb_list_refl].
 Qed.
 
@@ -190,13 +191,13 @@ Proof.
   destruct c as [o m blk tm poll skip|o force].
   - (* acquire *)
     pose proof Hfc as [Hp Hf].
-    destruct (acq_refines reent dflt s st t o m blk tm poll skip fuel Q Hp Hf) as [Er Eq].
+    destruct (acq_refines reent dflt z z s st t o m blk tm poll skip fuel Q eq_refl Hp Hf) as [Er Eq].
     destruct (acq_extra s st t o m blk tm poll skip Q Hfc) as [Xb Xt].
     unfold spec_call in Hok.
     destruct (spec_acquire st t o (reent o)) as [st1 b] eqn:Esp. cbn [fst snd] in *.
     destruct (do_call fuel s t (CAcq o m blk tm poll skip)) as [s1 r] eqn:Edo. cbn [fst snd] in *.
     assert (Hd1 : depth st1 <= S (depth st)).
-    { pose proof (spec_acquire_depth reent dflt st t o (reent o)) as Z. now rewrite Esp in Z. }
+    { pose proof (spec_acquire_depth reent dflt z z st t o (reent o)) as Z. now rewrite Esp in Z. }
     destruct b.
     + (* granted *)
       subst r. assert (Q1 : Rq s1 st1) by (apply Eq; discriminate).
@@ -221,11 +222,11 @@ Proof.
         subst r. destruct m; cbn [fail_result mon]; rewrite Hc; cbn [negb]; fold reent dflt; rewrite Esp; unfold spec_no; rewrite Ew; cbn;
           rewrite Xt by discriminate; rewrite A1, A2, A3; cbn; exact Hmon.
   - (* release *)
-    cbn in Hc. destruct (rel_refines reent dflt s st t o force fuel Q Hc) as [Er Eq]; [lia|].
+    cbn in Hc. destruct (rel_refines reent dflt z z s st t o force fuel Q Hc) as [Er Eq]; [lia|].
     pose proof (rel_extra s st t o force Q) as Xn.
     unfold spec_call in Hok.
     destruct (do_call fuel s t (CRel o force)) as [s1 r] eqn:Edo. cbn [fst snd] in *. subst r.
-    pose proof (spec_release_depth reent dflt st o force) as Hd1.
+    pose proof (spec_release_depth reent dflt z z st o force) as Hd1.
     pose proof (after_ok nT s1 _ Eq) as A.
     destruct (probes_f s1 (all_pairs nT (length cfg))) as [s2 ps]. destruct A as (Q2 & A1 & A2 & A3); [lia|].
     cbn [mon]. cbn in Hc. unfold spec_ok_call. rewrite Hc. cbn [negb]. cbn.
@@ -286,19 +287,19 @@ Proof.
           destruct r; try congruence; rewrite ends_blocked_cons; auto. }
   destruct c as [o m blk tm poll skip|o force].
   - pose proof Hfc as [Hp Hf].
-    destruct (acq_refines reent dflt s st t o m blk tm poll skip fuel Q Hp Hf) as [Er Eq].
+    destruct (acq_refines reent dflt z z s st t o m blk tm poll skip fuel Q eq_refl Hp Hf) as [Er Eq].
     unfold spec_call in Hok.
     destruct (spec_acquire st t o (reent o)) as [st1 b] eqn:Esp. cbn [fst snd] in *.
     destruct (do_call fuel s t (CAcq o m blk tm poll skip)) as [s1 r] eqn:Edo. cbn [fst snd] in *.
-    pose proof (spec_acquire_depth reent dflt st t o (reent o)) as Z. rewrite Esp in Z. cbn in Z.
+    pose proof (spec_acquire_depth reent dflt z z st t o (reent o)) as Z. rewrite Esp in Z. cbn in Z.
     apply (Step s1 r st1 eq_refl).
     + subst r. destruct b; [discriminate|]. unfold spec_no. destruct (waits_forever _ _ _), m; discriminate.
     + intros Hnw. split; [auto|]. split; [|exact Z].
       subst r. destruct b; [exact Hok|]. unfold spec_no in *. destruct (waits_forever _ _ _); [congruence|]. destruct m; exact Hok.
-  - cbn in Hc. destruct (rel_refines reent dflt s st t o force fuel Q Hc) as [Er Eq]; [lia|].
+  - cbn in Hc. destruct (rel_refines reent dflt z z s st t o force fuel Q Hc) as [Er Eq]; [lia|].
     unfold spec_call in Hok.
     destruct (do_call fuel s t (CRel o force)) as [s1 r] eqn:Edo. cbn [fst snd] in *. subst r.
-    pose proof (spec_release_depth reent dflt st o force) as Hd1.
+    pose proof (spec_release_depth reent dflt z z st o force) as Hd1.
     apply (Step s1 RNone (spec_release st o force) eq_refl); [discriminate|]. intros _. split; auto.
 Qed.
 
